@@ -15,7 +15,8 @@ RULE = (
     "largest difficulty in the returned list must equal theta*.  Non-trivial = run whose theta* is attained by a NEN "
     "assertion or whose answer has >= 2 assertions; distinct = distinct (n, winner, function, hint, theta*, returned set)"
 )
-ASSUMPTIONS = ["relative tolerance 1e-9 between float difficulties and exact rational reference", "agap = 0 only"]
+ASSUMPTIONS = ["relative tolerance 1e-9 between float difficulties and exact rational reference", "agap = 0 only",
+               "besides the two shipped difficulty functions, one caller-supplied function that decreases as the margin grows and takes negative values (minus the margin), without search hints"]
 REQUIRE_VAC = ["auditable_runs", "runs_with_hint", "theta_attained_only_by_NEN", "multi_assertion_answers"]
 PLAN = {"quick": [(2, 4), (3, 5), (4, 2)], "thorough": [(2, 6), (3, 6), (4, 3)]}
 
@@ -82,7 +83,7 @@ def run_shard(sh, rec):
             winners = range(n)
             hint_list = hints(n)
         for winner in winners:
-            for kind in ("bp", "cp"):
+            for kind in ("bp", "cp", "neg"):
                 ana = R.analyse(n, prof, winner, kind)
                 if not ana["possible"]:
                     rec.vac("unauditable_skipped")
@@ -93,7 +94,7 @@ def run_shard(sh, rec):
                 only_nen = any(
                     not any(a[0] == "NEB" and ana["true"][a][2] <= theta and R.contradicts(a, ana["orders"][k]) for a in ana["true"])
                     for k in crit)
-                for hint in hint_list:
+                for hint in (hint_list if kind != "neg" else [None]):
                     norm, _, _ = s2r.call_raire(n, prof, winner, kind, hint=hint)
                     rec.evals()
                     rec.vac("auditable_runs")
